@@ -38,6 +38,18 @@ def wire(obj):
     return obj
 
 
+_KEYN = [0]
+
+
+def pol(h):
+    """28 bytes as a policy key.  One content, three spellings: ScriptHash (what decoding yields), PolicyId and PolicyHash (the
+    exported aliases a caller writes); the class walks through them key by key, restarting with every case (so that a replay of
+    one case makes the same choices).  The models see the bytes."""
+    from pycardano.hash import ScriptHash, PolicyId, PolicyHash
+    _KEYN[0] += 1
+    return (ScriptHash, ScriptHash, PolicyId, ScriptHash, PolicyHash)[_KEYN[0] % 5](bytes.fromhex(h) if isinstance(h, str) else h)
+
+
 _LIVE, _COUNT = {}, [0]
 
 
@@ -133,6 +145,7 @@ def _main(handler, payload):
     results = []
     for c in payload['cases']:
         try:
+            _KEYN[0] = len(json.dumps(c, sort_keys=True, default=str))
             results.append(handler(c, payload))
         except Exception as e:                                  # driver-level failure: report, do not hide
             import traceback
